@@ -2,6 +2,7 @@ package vc
 
 import (
 	"fmt"
+	"go/types"
 	"strings"
 )
 
@@ -35,6 +36,17 @@ func (g *Gen) newState(kind int) *State {
 func (g *Gen) baseState() *State { return g.newState(stBase) }
 
 func (g *Gen) update(s *State, key string, val Term) *State {
+	// keep terms small: a large component value is named once instead of being
+	// copied into every later term that mentions it
+	if len(val) > 400 || strings.Contains(val, "(ite ") {
+		if srt, ok := g.u.compSort[key]; ok {
+			g.compN++
+			name := fmt.Sprintf("%s!u%d", g.compName(key), g.compN)
+			g.declare(name, srt)
+			g.assert(fmt.Sprintf("(= %s %s)", name, val))
+			val = name
+		}
+	}
 	n := g.newState(stUpdate)
 	n.parent, n.key, n.val = s, key, val
 	return n
@@ -103,6 +115,18 @@ func (g *Gen) freshComp(key string, tag string, top Term) Term {
 func (g *Gen) compWF(key string, name Term, top Term) {
 	t := g.u.compElem[key]
 	if t == nil {
+		return
+	}
+	// integer ranges are asserted at each load in the code; the quantified
+	// well-formedness fact is kept only for values with structure (slices,
+	// references, interfaces, structs), where contracts read them directly
+	if basicInt(t) != nil {
+		return
+	}
+	if at, ok := types.Unalias(t).Underlying().(*types.Array); ok && basicInt(at.Elem()) != nil {
+		return
+	}
+	if b, ok := types.Unalias(t).Underlying().(*types.Basic); ok && b.Info()&types.IsBoolean != 0 {
 		return
 	}
 	var sel Term
